@@ -261,6 +261,30 @@ Theorem c19_details_consistent : forall a reg br ctx rs op f,
 Proof. exact details_consistent. Qed.
 Print Assumptions c19_details_consistent.
 
+(* "none when the examined address is itself accessible", on the map itself: the examined value lies in the range of
+   a region that intersects no other region and permits the operation (any position in the list, any other
+   regions, overlapping among themselves or not) — the lookup finds that region (C08 completeness) and nothing
+   is reported.  (With overlapping regions the lookup table drops entries, see design/C19.md.) *)
+Theorem c19_none_when_accessible_isolated : forall rs1 mi rs2 r a reg br ctx op,
+  wf_regions (rs1 ++ mi :: rs2) -> rg_range mi = Some r -> contains r a = true ->
+  (forall mi' r', In mi' (rs1 ++ rs2) -> rg_range mi' = Some r' -> intersects r r' = false) ->
+  possibly_allowed op mi = true ->
+  try_bit_flips a reg br ctx (rs1 ++ mi :: rs2) op = [].
+Proof. exact none_when_accessible_isolated. Qed.
+Print Assumptions c19_none_when_accessible_isolated.
+
+(* completeness (the converse of c19_one_bit_in_range / c19_null_or_mapped_allowed): when the examined value is not
+   itself accessible, EVERY single-bit neighbour inside the bit range that is null or that the lookup places in a region
+   permitting the access is reported, with the source register it was asked for *)
+Theorem c19_flips_complete : forall a reg br ctx rs op j,
+  (forall mi, lookup_region rs a = Some mi -> possibly_allowed op mi = false) ->
+  br_lo br <= j < br_hi br ->
+  (Z.lxor a (2 ^ j) = 0 \/
+   exists mi, lookup_region rs (Z.lxor a (2 ^ j)) = Some mi /\ possibly_allowed op mi = true) ->
+  exists f, In f (try_bit_flips a reg br ctx rs op) /\ f_addr f = Z.lxor a (2 ^ j) /\ f_reg f = reg.
+Proof. exact try_bit_flips_complete. Qed.
+Print Assumptions c19_flips_complete.
+
 (* ---- non-vacuity ---- *)
 Example c19_nonvacuous_flip :
   let rs := [region_of_info 524288 8 0] in
